@@ -23,7 +23,7 @@
 From MafVerif Require Import lib.Base lib.Str model.RecordOps model.Validation model.Header
   model.RecordParse model.Reader model.WriterMode model.FileIO
   proofs.FileIOText proofs.FileIORecord proofs.FileIOWrite proofs.FileIORead proofs.FileIORows
-  proofs.FileIORoundTrip proofs.FileIOTheorems.
+  proofs.FileIORoundTrip proofs.FileIOTheorems proofs.FileIOParsed.
 
 (* ====================================================================== *)
 (* framing                                                                 *)
@@ -123,6 +123,22 @@ Proof.
   exact (round_trip_layout sem registry key_of key_lt Hplain value_hazard Hfix).
 Qed.
 Print Assumptions C02_round_trip_layout.
+
+(* the premise `typed_by` is what parsing gives: every record
+   MafRecord.from_line returns without validation error under layout s holds,
+   in every column, a value of exactly the layout's class built by that class;
+   it is typed by s as soon as none of its values falls under C04's side
+   condition *)
+Theorem C02_parsed_records_are_typed :
+  forall (C W : Type) (sem : colsem C W) (value_hazard : C -> W -> bool)
+         (s : scheme (cls C)) line ln m lg l (r : mrec C W),
+    s_truthy s = true -> NoDup (s_names s) ->
+    from_line sem line None (Some s) ln (Some m) lg = (l, Ok r) -> merrs r = [] ->
+    Forall (fun np => match snd np with PTyped c w => value_hazard c w = false | PPlain _ => True end)
+           (cells_of_rec (mcols r)) ->
+    typed_by sem value_hazard s r.
+Proof. intros C W sem value_hazard. exact (parsed_typed_by sem value_hazard). Qed.
+Print Assumptions C02_parsed_records_are_typed.
 
 (* Scheme-less column set: the header selects no scheme, the first record's
    names become the column line.  HYPOTHESIS `carriable (record_names r1)`:
